@@ -136,6 +136,11 @@ func (w *world) factory(ms appencryption.Metastore) *appencryption.SessionFactor
 		ms, w.kms, aead.NewAES256GCM())
 }
 
+func (w *world) cachedFactory() *appencryption.SessionFactory {
+	return appencryption.NewSessionFactory(&appencryption.Config{Service: "svc", Product: "prod", Policy: w.policy(true)},
+		w.inner, w.kms, aead.NewAES256GCM())
+}
+
 func (w *world) seqEncrypt() *appencryption.DataRowRecord {
 	f := w.factory(w.inner)
 	defer f.Close()
@@ -175,6 +180,27 @@ func states() []startState {
 		{"both-revoked", func(w *world) { w.seqEncrypt(); w.revokeLatest(skID); w.revokeLatest(ikID) }, 5 * time.Second},
 		{"ik-revoked-same-second", func(w *world) { w.seqEncrypt(); w.revokeLatest(ikID) }, 0},
 		{"sk-revoked-same-second", func(w *world) { w.seqEncrypt(); w.revokeLatest(skID) }, 0},
+		{"mismatched-parent", func(w *world) { // the latest IK (revoked, stamped in the current second) is under an OLDER system key than the latest valid one
+			f1 := w.cachedFactory()
+			s1, _ := f1.GetSession("p0")
+			s1.Encrypt(context.Background(), []byte("a")) // SK_a@0, IK@0
+			w.revokeLatest(skID)
+			w.revokeLatest(ikID)
+			w.now.Add(int64(3 * time.Second))
+			f2 := w.factory(w.inner) // another process rotates the system key: SK_b@3
+			s9, _ := f2.GetSession("p9")
+			s9.Encrypt(context.Background(), []byte("x"))
+			s9.Close()
+			f2.Close()
+			w.now.Add(int64(2 * time.Second))
+			// a fresh session of the warm factory still trusts its cached SK_a: IK@5 under SK_a
+			s2, _ := f1.GetSession("p0")
+			s2.Encrypt(context.Background(), []byte("b"))
+			w.revokeLatest(ikID)
+			s1.Close()
+			s2.Close()
+			f1.Close()
+		}, 5 * time.Second},
 		{"rotated-sk-old-ik", func(w *world) { // an IK under an old (revoked) SK plus a newer valid SK
 			w.seqEncrypt()
 			w.revokeLatest(skID)
